@@ -9,7 +9,8 @@ def check(run, only=None):
                 "a loop, embed, import/from, block(), if) plus a run-time error of 8 kinds (undefined filter/function/test, "
                 "non-iterable, unknown block, missing template, template with a syntax error, unknown macro) inserted at every "
                 "top-level position and into the first body; every program is run fault-free, with the destination writer "
-                "failing at its k-th write for every k, with the loader failing at its k-th load for every k, and the same "
+                "failing at its k-th write for every k, with the loader failing at its k-th load for every k (an error from Load, and a "
+                "template whose contents cannot be read to the end), and the same "
                 "through ExecuteSafe; non-trivial = a run with an injected fault or a run-time error")
     run.assumptions = ["the reference output before an error is the one of spec/Exec.tla; output chunking into Write calls is free"]
     if only is not None:
@@ -51,7 +52,7 @@ def check(run, only=None):
                 owner.append((v, r))
             events.append({"e": "ret", "ok": r["ret_ok"]})
             owner.append((v, r))
-            key = json.dumps([v["tpls"], r["safe"], r["wk"], r["lk"]], sort_keys=True)
+            key = json.dumps([v["tpls"], r["safe"], r["wk"], r["lk"], r.get("rk", 0)], sort_keys=True)
             run.count(key, r["wk"] > 0 or r["lk"] > 0 or v["exp"]["status"] == "err")
             if len(run.samples) < 3 and r["wk"] == 2:
                 run.sample({"src": o["obs"]["srcs"].get("t"), "run": {"safe": r["safe"], "write_fails_at": r["wk"]},
@@ -74,10 +75,10 @@ def check(run, only=None):
             v, r = owner[base + i]
             srcs = (obs[v["id"]].get("obs") or {}).get("srcs", {})
             feat = "safe" if r and r["safe"] else "exec"
-            kind = "write-fault" if r and r["wk"] else ("load-fault" if r and r["lk"] else "no-fault")
+            kind = "write-fault" if r and r["wk"] else ("read-fault" if r and r.get("rk") else ("load-fault" if r and r["lk"] else "no-fault"))
             case = dict(v)
             case["_src"] = srcs
-            case["_run"] = {"safe": r["safe"], "wk": r["wk"], "lk": r["lk"]} if r else None
+            case["_run"] = {"safe": r["safe"], "wk": r["wk"], "lk": r["lk"], "rk": r.get("rk", 0)} if r else None
             run.mismatch("C17 %s %s %s %s" % (why, feat, kind, v.get("fam")), case,
                          "run rejected by C17_Trace: " + why, expected=v["exp"],
                          observed={"events": [(e["e"], common.show(bytes(e.get("d") or e.get("name") or [])), e["ok"]) for e in r["events"]],
